@@ -211,9 +211,25 @@ def modelledTags : List (String × String × String) := [
   ,("pkg/util/ipfilter/ipfilter.go:Spec", "blockByDefault", "required")
   ,("pkg/util/ipfilter/ipfilter.go:Spec", "allowIPs", "omitempty,uniqueItems=true,format=ipcidr-array")
   ,("pkg/util/ipfilter/ipfilter.go:Spec", "blockIPs", "omitempty,uniqueItems=true,format=ipcidr-array")
+  ,("pkg/object/mqttproxy/spec.go:Spec", "-", "<none>")
+  ,("pkg/object/mqttproxy/spec.go:Spec", "-", "<none>")
+  ,("pkg/object/mqttproxy/spec.go:Spec", "port", "required")
+  ,("pkg/object/mqttproxy/spec.go:Spec", "useTLS", "omitempty")
+  ,("pkg/object/mqttproxy/spec.go:Spec", "certificate", "omitempty")
+  ,("pkg/object/mqttproxy/spec.go:Spec", "topicCacheSize", "omitempty")
+  ,("pkg/object/mqttproxy/spec.go:Spec", "maxAllowedConnection", "omitempty")
+  ,("pkg/object/mqttproxy/spec.go:Spec", "connectionLimit", "omitempty")
+  ,("pkg/object/mqttproxy/spec.go:Spec", "clientPublishLimit", "omitempty")
+  ,("pkg/object/mqttproxy/spec.go:Spec", "rules", "omitempty")
+  ,("pkg/object/mqttproxy/spec.go:Rule", "when", "omitempty")
+  ,("pkg/object/mqttproxy/spec.go:Rule", "pipeline", "omitempty")
+  ,("pkg/object/mqttproxy/spec.go:When", "packetType", "omitempty")
+  ,("pkg/object/mqttproxy/spec.go:RateLimit", "requestRate", "omitempty")
+  ,("pkg/object/mqttproxy/spec.go:RateLimit", "bytesRate", "omitempty")
+  ,("pkg/object/mqttproxy/spec.go:RateLimit", "timePeriod", "omitempty")
   ]
 
-def modelledValidate : List String := ["pkg/filters/proxy/proxy.go:Spec:pointer", "pkg/filters/proxy/pool.go:ServerPoolSpec:pointer", "pkg/filters/proxy/requestmatch.go:RequestMatcherSpec:pointer", "pkg/filters/proxy/requestmatch.go:MethodAndURLMatcher:pointer", "pkg/filters/proxy/requestmatch.go:StringMatcher:pointer", "pkg/filters/responseadaptor/responseadaptor.go:Spec:pointer", "pkg/protocols/httpprot/httpheader/validator.go:ValueValidator:value", "pkg/filters/ratelimiter/ratelimiter.go:Policy:value", "pkg/filters/ratelimiter/ratelimiter.go:Spec:value", "pkg/util/urlrule/urlrule.go:StringMatch:value", "pkg/filters/validator/validator.go:Spec:value", "pkg/filters/builder/builder.go:Spec:pointer", "pkg/filters/builder/requestbuilder.go:RequestBuilderSpec:pointer", "pkg/filters/builder/responsebuilder.go:ResponseBuilderSpec:pointer", "pkg/resilience/retry.go:RetryPolicy:pointer", "pkg/resilience/circuitbreaker.go:CircuitBreakerPolicy:pointer", "pkg/object/pipeline/pipeline.go:Spec:pointer", "pkg/object/globalfilter/globalfilter.go:Spec:pointer", "pkg/object/httpserver/spec.go:Spec:pointer", "pkg/object/httpserver/spec.go:Path:pointer", "pkg/object/httpserver/spec.go:Header:pointer"]
+def modelledValidate : List String := ["pkg/filters/proxy/proxy.go:Spec:pointer", "pkg/filters/proxy/pool.go:ServerPoolSpec:pointer", "pkg/filters/proxy/requestmatch.go:RequestMatcherSpec:pointer", "pkg/filters/proxy/requestmatch.go:MethodAndURLMatcher:pointer", "pkg/filters/proxy/requestmatch.go:StringMatcher:pointer", "pkg/filters/responseadaptor/responseadaptor.go:Spec:pointer", "pkg/protocols/httpprot/httpheader/validator.go:ValueValidator:value", "pkg/filters/ratelimiter/ratelimiter.go:Policy:value", "pkg/filters/ratelimiter/ratelimiter.go:Spec:value", "pkg/util/urlrule/urlrule.go:StringMatch:value", "pkg/filters/validator/validator.go:Spec:value", "pkg/filters/builder/builder.go:Spec:pointer", "pkg/filters/builder/requestbuilder.go:RequestBuilderSpec:pointer", "pkg/filters/builder/responsebuilder.go:ResponseBuilderSpec:pointer", "pkg/resilience/retry.go:RetryPolicy:pointer", "pkg/resilience/circuitbreaker.go:CircuitBreakerPolicy:pointer", "pkg/object/pipeline/pipeline.go:Spec:pointer", "pkg/object/globalfilter/globalfilter.go:Spec:pointer", "pkg/object/httpserver/spec.go:Spec:pointer", "pkg/object/httpserver/spec.go:Path:pointer", "pkg/object/httpserver/spec.go:Header:pointer", "pkg/object/mqttproxy/spec.go:Spec:pointer"]
 
 def guardTable : List ((String × String × Nat) × String) := [
   (("pkg/filters/builder/builder.go", "Builder.reload", 1), "guard: builderInitOK (template.Must; repaired Validate parses the template)"),
@@ -255,8 +271,8 @@ def guardTable : List ((String × String × Nat) × String) := [
   (("pkg/object/globalfilter/globalfilter.go", "GlobalFilter.Handle", 1), "allow: the handler is always a *pipeline.Pipeline (the only context.Handler implementation the mux mapper hands to httpserver.mux); GlobalFilter is instantiated and served by harness gf"),
   (("pkg/object/globalfilter/globalfilter.go", "GlobalFilter.reload", 2), "guard: globalFilterInitOK (CreateAndUpdate*PipelineForSpec fails only when supervisor.NewSpec rejects the re-marshalled part that globalfilter.Spec.Validate accepted; panics of Pipeline.Init/Inherit of an instantiated part are pipelineInitOK of that part; harness gf)"),
   (("pkg/object/httpserver/spec.go", "Header.initHeaderRoute", 1), "guard: httpServerInitOK (regexp.MustCompile(h.Regexp) guarded by format=regexp on Header.regexp: valid_implies_init_ok_HTTPServer; mux built and served by harness http)"),
-  (("pkg/object/mqttproxy/broker.go", "newBroker", 1), "not-covered: MQTTProxy harness not built; predicted finding (unknown/repeated packet type, rule without `when`) not reproduced"),
-  (("pkg/object/mqttproxy/mqttproxy.go", "MQTTProxy.Init", 1), "not-covered: MQTTProxy harness not built; predicted finding (unknown/repeated packet type, rule without `when`) not reproduced"),
+  (("pkg/object/mqttproxy/broker.go", "newBroker", 1), "guard: mqttProxyInitOK (getPipelineMap error -> panic; the repaired mqttproxy.Spec.Validate runs the same getPipelineMap: valid_implies_init_ok_MQTTProxy; broker started and driven by harness mqtt)"),
+  (("pkg/object/mqttproxy/mqttproxy.go", "MQTTProxy.Init", 1), "allow: environment, not configuration: newBroker returns nil only when the TCP/TLS listener cannot be opened (port in use, bad certificate material); harness mqtt uses port 0 without TLS"),
   (("pkg/util/signer/signer.go", "Signer.Verify", 1), "guard: validatorHandleOK (repaired Validator.Spec.Validate requires accessKeys)"),
   (("pkg/util/urlrule/urlrule.go", "StringMatch.Init", 1), "guard: smInitOK (regexp.MustCompile guarded by format=regexp)"),
   (("pkg/util/urlrule/urlrule.go", "URLRule.Init", 1), "guard: smInitOK (regexp.MustCompile guarded by format=regexp)"),
